@@ -55,6 +55,136 @@ class DFn:
     name: int = 0
 '''
 
+# module-level values of every awkward runtime kind: what the checker knows *literally* (KnownValue of the imported object)
+# and may try to hash / compare / print / pickle / iterate / introspect.  Appended to HEADER by the awkward-value sweeps
+# (and by a share of the random derivations); importing it has no effect beyond binding the AW_* names.
+AWKWARD_HEADER = '''\
+import array, io, re, threading, types, weakref
+def _mk_closure(step):
+    def inner(v=0):
+        return v + step
+    return inner
+def _mk_class():
+    class Local:
+        attr = 1
+        def meth(self, x: int = 0) -> int: return x
+    return Local
+def _mk_gen():
+    yield 1
+async def _mk_coro(): return 1
+async def _mk_agen():
+    yield 1
+def _hostile(name, exc=ValueError, **extra):
+    """an instance of a class whose hook `name` raises `exc` (not the exception the protocol expects)"""
+    def hook(self, *a, **k): raise exc(name)
+    hook.__code__ = hook.__code__.replace(co_name=name, co_qualname=name)  # tracebacks name the hook
+    return type("_H" + name.strip("_"), (), {name: hook, **extra})()
+class _PickleFails(Exception):
+    def __init__(self, a, b): super().__init__(a)
+class _LyingClass:
+    @property
+    def __class__(self): return int
+class _NegLen:
+    def __len__(self): return -1
+class _HugeLen:
+    def __len__(self): return 1 << 70
+    def __getitem__(self, i): return i
+class _EndlessIter:
+    def __iter__(self): return itertools.count()
+class _DynAttrs:
+    def __getattr__(self, name): return self
+    def __call__(self, *a, **k): return self
+    def __getitem__(self, k): return self
+AW_CLOSURE = _mk_closure(1)
+AW_LOCAL_CLS = _mk_class()
+AW_LOCAL_OBJ = AW_LOCAL_CLS()
+AW_LOCAL_METH = AW_LOCAL_OBJ.meth
+AW_LAMBDA = lambda x=0: x
+AW_GEN = _mk_gen()
+AW_GENEXP = (i for i in (1, 2))
+AW_CORO = _mk_coro(); AW_CORO.close()
+AW_AGEN = _mk_agen()
+AW_LOCK = threading.Lock()
+AW_RLOCK = threading.RLock()
+AW_FILE = io.TextIOWrapper(io.BytesIO(b"ab"))  # an open text file without a descriptor (hundreds of these modules are imported per run)
+AW_STRINGIO = io.StringIO("ab")
+AW_MODULE = types.ModuleType("aw_mod")
+AW_BOUND = Base().meth
+AW_BUILTIN_BOUND = [].append
+AW_PARTIAL = functools.partial(deco, 1)
+AW_PARTIAL_CLOSURE = functools.partial(AW_CLOSURE, v=1)
+AW_WEAKREF = weakref.ref(Base)
+_aw_referent = Base()
+AW_WEAKPROXY = weakref.proxy(_aw_referent)
+AW_WEAKDICT = weakref.WeakValueDictionary()
+AW_H_REDUCE = _hostile("__reduce__")
+AW_H_REDUCE_EX = _hostile("__reduce_ex__", exc=AttributeError)
+AW_H_GETSTATE = _hostile("__getstate__", exc=RuntimeError)
+AW_H_DIR = _hostile("__dir__")
+AW_H_BOOL = _hostile("__bool__")
+AW_H_LEN = _hostile("__len__")
+AW_H_ITER = _hostile("__iter__")
+AW_H_INDEX = _hostile("__index__")
+AW_H_HASH = _hostile("__hash__")
+AW_H_EQ = _hostile("__eq__", __hash__=lambda self: 0)
+AW_H_REPR = _hostile("__repr__", __str__=lambda self: (_ for _ in ()).throw(ValueError("str")))
+AW_H_FORMAT = _hostile("__format__")
+AW_H_CALL = _hostile("__call__")
+AW_H_GETITEM = _hostile("__getitem__")
+AW_H_ENTER = _hostile("__enter__", __exit__=lambda self, *a: None)
+AW_H_SETATTR = _hostile("__setattr__")
+AW_H_CONTAINS = _hostile("__contains__")
+AW_H_ADD = _hostile("__add__", __radd__=lambda self, o: (_ for _ in ()).throw(ValueError("radd")))
+AW_H_LT = _hostile("__lt__")
+AW_H_INSTANCECHECK = type("_MI", (type,), {"__instancecheck__": lambda c, o: (_ for _ in ()).throw(ValueError("ic")),
+                                             "__subclasscheck__": lambda c, o: (_ for _ in ()).throw(ValueError("sc"))})("_HI", (), {})
+AW_LYING_CLASS = _LyingClass()
+AW_NEG_LEN = _NegLen()
+AW_HUGE_LEN = _HugeLen()
+AW_ENDLESS = _EndlessIter()
+AW_DYN = _DynAttrs()
+AW_EXC_UNREPLAYABLE = _PickleFails(1, 2)
+AW_NAN = float("nan")
+AW_CYCLE = []; AW_CYCLE.append(AW_CYCLE)
+AW_CYCLE_DICT = {}; AW_CYCLE_DICT["self"] = AW_CYCLE_DICT
+AW_NESTED_AWKWARD = (1, [AW_CLOSURE, {"k": AW_LOCAL_OBJ}])
+AW_MEMORYVIEW = memoryview(b"ab")
+AW_ARRAY = array.array("i", [1, 2])
+AW_PATTERN = re.compile("a")
+AW_NAMESPACE = types.SimpleNamespace(attr=1)
+AW_CODE = deco.__code__
+AW_FRAME = sys._getframe()
+AW_PROPERTY = property(lambda self: 1)
+AW_STATICMETHOD = staticmethod(len)
+AW_CLASSMETHOD = classmethod(deco)
+AW_CACHED_PROPERTY = functools.cached_property(deco)
+AW_UNION_TYPE = int | str
+AW_GENERIC_ALIAS = list[int]
+AW_MAPPINGPROXY = Base.__dict__
+AW_NOTIMPLEMENTED = NotImplemented
+AW_SLICE = slice(1, None)
+AW_ITER = iter([1, 2])
+AW_THREAD_LOCAL = threading.local()
+'''
+AWKWARD = [l.split(" = ")[0] for l in AWKWARD_HEADER.splitlines() if l.startswith("AW_")]
+# objects whose implicitly invoked hooks raise: every isinstance / getattr / hasattr probe of them (or of their class) by the
+# checker raises.  They get a sweep of their own (the module-level statements below are themselves checked, so every
+# program that contains them exercises the probes) and are not given to the random derivations.
+PROBE_HOOK_HEADER = '''\
+class _RaisingClass:
+    @property
+    def __class__(self): raise ValueError("__class__")
+class _MetaHostile(type):
+    def __getattr__(cls, name): raise ValueError(name)
+class _HostileMeta(metaclass=_MetaHostile): pass
+AW_H_GETATTR = _hostile("__getattr__")
+AW_H_GETATTRIBUTE = _hostile("__getattribute__")
+AW_RAISING_CLASS = _RaisingClass()
+AW_META_HOSTILE = _HostileMeta
+AW_META_HOSTILE_OBJ = _HostileMeta()
+'''
+PROBE_HOOK_VALUES = [l.split(" = ")[0] for l in PROBE_HOOK_HEADER.splitlines() if l.startswith("AW_")]
+
 LOCALS = ["a", "b", "c", "x", "y", "z"]
 PARAMS = ["p", "q", "r", "s"]
 UNDEFINED = ["undef1", "undef2"]
@@ -298,6 +428,10 @@ class Fuzz:
         self.in_or = False
         self.nested = 0           # function nesting depth
         self.names = list(LOCALS)
+        # a fifth of the derivations (decided by the budget, so that the main random stream is the same with and without)
+        # get the awkward module-level values: a private stream replaces some of the names by AW_* names
+        self.awkward = budget % 5 == 0
+        self.aw_rng = random.Random(budget * 7919 + 13)
 
     # ------------------------------------------------------------------ utilities
     def f(self, name: str) -> None:
@@ -340,6 +474,13 @@ class Fuzz:
 
     # ------------------------------------------------------------------ names and atoms
     def name(self) -> str:
+        res = self._name()
+        if self.awkward and self.aw_rng.random() < 0.25:
+            self.f("name:awkward-module-level-value")
+            return self.aw_rng.choice(AWKWARD)
+        return res
+
+    def _name(self) -> str:
         r = self.rng.random()
         if r < 0.45:
             return self.pick(self.names)
@@ -1326,7 +1467,7 @@ class Fuzz:
         if self.chance(0.08) and not self.future:
             self.f("module:docstring")
             lines.append('"""Module docstring é.\n\nsecond paragraph."""')
-        lines.append(HEADER)
+        lines.append(HEADER + AWKWARD_HEADER if self.awkward else HEADER)
         items = []
         n_items = self.rng.randrange(2, 6)
         for i in range(n_items):
@@ -1483,8 +1624,11 @@ def sweep_programs(mine=None) -> list:
             return
         if src is None:
             src = _assemble(future, defs() if callable(defs) else defs)
-        elif not _compiles(src):
-            return
+        else:
+            if callable(src):
+                src = src()
+            if not _compiles(src):
+                return
         out.append((name, src))
 
     anns = list(dict.fromkeys(SAFE_ANN + LAZY_ANN))
@@ -1624,4 +1768,293 @@ def sweep_programs(mine=None) -> list:
     for tp in TYPE_PARAMS + ["T = int", "T: int = bool", "*Ts = *tuple[int, str]", "**P = [int, str]", "T: (int, undef1)", "T: 'undef1'", "T: 1", "T: (int,)", "T: ()",
                              "T: Later", "T: list[Later]", "T: T", "T: U, U: T", "T, T2: T", "T: Callable[[T], T]", "T: int | None", "T: Literal[1]"]:
         emit("type-parameters", False, lambda tp=tp: tparam_defs(tp))
+    # (10) constant subscripts / slices / unpacking of sequence displays and variadic tuple annotations that contain 0-2
+    # star members (of unknown, known and unknowable length) at every position: the number of members *written* is not
+    # the length of the sequence
+    for name, defs in star_sequence_defs():
+        emit("star-sequence-subscripts", True, defs)
+
+    # (11) module-level values of every awkward runtime kind in every value position (incl. attribute stores on receivers
+    # of known class, which the attribute checker records, and attribute reads it judges in its final pass)
+    for i in range(0, len(AWKWARD), AWKWARD_PER_MODULE):
+        emit("awkward-values", False, src=lambda chunk=AWKWARD[i: i + AWKWARD_PER_MODULE]: awkward_module(chunk))
+    # (12) the same for the objects whose __getattribute__ / __getattr__ / __class__ hooks (of the object or its metaclass) raise
+    for i in range(0, len(PROBE_HOOK_VALUES), AWKWARD_PER_MODULE):
+        emit("probe-hook-values", False, src=lambda chunk=PROBE_HOOK_VALUES[i: i + AWKWARD_PER_MODULE]: awkward_module(chunk, extra_header=PROBE_HOOK_HEADER))
     return out
+
+
+# --- (10) -----------------------------------------------------------------
+STAR_SOURCES = ["xs", "ts", "kt", "vt", "pu", "g2", "'ab'", "range(3)", "undef1", "()"]
+STAR_SIG = ("xs: list[int], ts: tuple[str, ...], kt: tuple[int, str], vt: tuple[int, *tuple[str, ...], bytes], pu, idx: int, "
+            "lit: Literal[-5, -1, 0, 5], e: bytes")
+_ELTS = ["1", "'a'", "e", "None"]
+_ELT_TYPES = ["int", "str", "bytes", "None"]
+
+
+def star_patterns(max_len: int = 4, max_stars: int = 2) -> list:
+    """every sequence over {E(lement), S(tar)} of length 0..max_len with at most max_stars stars"""
+    import itertools
+
+    return ["".join(p) for n in range(max_len + 1) for p in itertools.product("ES", repeat=n) if p.count("S") <= max_stars]
+
+
+def subscript_indices(n: int) -> list:
+    """index expressions for a sequence with n written members: every constant from -(n+3) to n+2, slices around the
+    boundaries, non-literal and ill-typed indices"""
+    ints = [str(i) for i in range(-(n + 3), n + 3)]
+    slices = [":", "1:", ":-1", "-2:", "::2", "::-1", f"-{n + 2}:", f":{n + 2}", "1:-1", "-1:1", f"{n + 1}:", f":-{n + 1}", "idx:", ":idx", "0:0",
+              f"-{n + 1}::-1", "::0", "lit:", "None:None"]
+    other = ["True", "None", "'a'", "1, 2", "idx", "lit", "-idx", "~0", "1.5", "...", "()", "*xs", "slice(1, 2)", "-(1)", "10 ** 30", "-10 ** 30"]
+    return ints + slices + other
+
+
+def star_sequence_uses(d: str, n: int, is_list: bool) -> list:
+    """statements using the sequence expression d (n written members) beyond a plain subscript"""
+    uses = [f"y = {d}[1:][-{n + 1}]", f"y = {d}[:-1][-{max(n, 1)}]", f"y = {d}[::-1][-{n + 2}]", f"y = {d}[idx][lit]", f"y = {d}[-{n + 1}][0]",
+            f"a0, b0 = {d}", f"a0, *b0 = {d}", f"*a0, b0 = {d}", f"a0, b0, c0, d0, e0 = {d}", f"a0, *b0, c0 = {d}", f"for i in {d}: pass",
+            f"for a0, b0 in {d}: pass", f"y = len({d})", f"y = {d} + {d}", f"y = ({d} + {d})[-{2 * n + 1}]", f"y = {d} * 2", f"y = ({d} * 2)[-{n + 1}]",
+            f"y = 1 in {d}", f"y = {d} == {d}", f"y = {d} < {d}", f"later_fn(*{d})", f"y = [*{d}, *{d}][-{n + 3}]", f"y = (*{d}, 0)[-{n + 2}]",
+            f"y = max({d})", f"y = sorted({d})[-{n + 2}]", f"y = list({d})[-{n + 2}]", f"y = tuple({d})[-{n + 2}]", f"y = reversed({d})", f"y = f'{{{d}}}'",
+            f"y = {d}[-{n + 1}] if {d} else None", f"{d}[0].nope", f"y = {d}.__getitem__(-{n + 1})", f"y = {d}.index(1)", f"y = dict({d})", f"y = set({d})",
+            f"match {d}:\n    case [a1, *b1, c1]: pass\n    case [a1, b1, c1, d1, e1]: pass\n    case [*b1]: pass\n    case []: pass",
+            f"with {d} as (a0, *b0): pass", f"y = [i for i in {d}][-{n + 1}]", f"y = (lambda *a: a[-{n + 1}])(*{d})"]
+    if is_list:
+        uses = [f"w = {d}", f"w[-{n + 2}] = 0", f"del w[-{n + 1}]", f"w[-{n + 2}:] = []", "w[lit] += 1", f"w[-{n + 3}] += 1", f"y = w[-{n + 2}]",
+                f"w.append(0); w.insert(-{n + 2}, 0); y = w.pop(-{n + 1})", f"w += {d}; y = w[-{n + 3}]", f"w *= 2; y = w[-{n + 3}]"] + uses
+    return uses + [f"return {d}[-{n + 2}]"]
+
+
+def _display(pattern: str, sources, kind: str) -> str:
+    items, si = [], 0
+    for k, c in enumerate(pattern):
+        if c == "E":
+            items.append(_ELTS[k % len(_ELTS)])
+        else:
+            items.append("*" + sources[si % len(sources)])
+            si += 1
+    body = ", ".join(items)
+    if kind == "list":
+        return f"[{body}]"
+    return f"({body}{',' if len(items) == 1 else ''})"
+
+
+def star_sequence_defs() -> list:
+    """-> [(name, callable -> [function source])] : one module per member pattern, then the annotated forms"""
+    mods = []
+    ann_jobs = []
+    for pi, pat in enumerate(star_patterns()):
+        n = len(pat)
+        nstars = pat.count("S")
+        combos = [(s,) for s in STAR_SOURCES] if nstars else [()]
+        if nstars == 2:
+            combos = [(s, s) for s in STAR_SOURCES[:6]] + [("xs", "ts"), ("kt", "xs"), ("pu", "vt"), ("undef1", "xs")]
+
+        def display_defs(pi=pi, pat=pat, n=n, combos=combos):
+            defs = []
+            for ci, srcs in enumerate(combos):
+                for kind in ("tuple", "list"):
+                    d = _display(pat, srcs, kind)
+                    body = [f"y = {d}[{ix}]" for ix in subscript_indices(n)] + star_sequence_uses(d, n, kind == "list")
+                    defs.append(f"def ss{pi}_{ci}_{kind}({STAR_SIG}):\n" + _indent("\n".join(body), "    "))
+            return defs
+
+        mods.append((pat or "empty", display_defs))
+        # the same member pattern as a tuple annotation (a parameter, a local, an alias, a string)
+        star_types = [("*tuple[float, ...]", "*tuple[complex, ...]"), ("*Ts", "*tuple[float, ...]"), ("Unpack[tuple[float, ...]]", "Unpack[Ts]"),
+                      ("*tuple[int, str]", "*tuple[float, ...]"), ("*tuple[()]", "*tuple[()]")] if nstars else [()]
+        for ti, sts in enumerate(star_types):
+            ann_jobs.append((pi, ti, pat, sts))
+
+    def annotated_defs(jobs):
+        defs = []
+        for pi, ti, pat, sts in jobs:
+            n = len(pat)
+            items, si = [], 0
+            for k, c in enumerate(pat):
+                if c == "E":
+                    items.append(_ELT_TYPES[k % len(_ELT_TYPES)])
+                else:
+                    items.append(sts[si % len(sts)])
+                    si += 1
+            ann = f"tuple[{', '.join(items)}]" if items else "tuple[()]"
+            body = [f"y = v[{ix}]" for ix in subscript_indices(n)] + star_sequence_uses("v", n, False)[:-1]
+            body += [f"w: {ann} = v", f"y = w[-{n + 1}]", f"y = typing.cast({ann!r}, pu)[-{n + 2}]", f"type A = {ann}", "z: A = v", f"y = z[-{n + 3}]", f"return v[-{n + 2}]"]
+            defs.append(f"def sa{pi}_{ti}(v: {ann}, {STAR_SIG}):\n" + _indent("\n".join(body), "    "))
+        return defs
+
+    for i in range(0, len(ann_jobs), 12):
+        mods.append(("annotated", lambda jobs=ann_jobs[i: i + 12]: annotated_defs(jobs)))
+    return mods
+
+
+# --- (11) -----------------------------------------------------------------
+AWKWARD_PER_MODULE = 3
+# value positions beyond USES: stores to attributes of receivers whose class is known (self / cls / annotated parameter /
+# constructor call / module-level instance), class attributes, defaults, decorators, bases, annotations, containers
+AWKWARD_POSITIONS = '''
+class AK$J:
+    cattr = $V
+    pair = ($V, 1)
+    def __init__(self, p=$V, *, k=($V,)) -> None:
+        self.x = $V
+        self.y: object = $V
+        self.z = [$V]
+        self.t = ($V, 1)
+        self.d = {'k': $V}
+        self.w = $V if p else None
+        self.u = self.v = $V
+        self.a, self.b = $V, 1
+        self.p = p
+        self.k = k
+        self.lam = lambda: $V
+        self.call = later_fn($V)
+    @classmethod
+    def cm(cls):
+        cls.c = $V
+        cls.cattr = [$V, None]
+        return cls.c
+    @staticmethod
+    def sm(o: "AK$J"):
+        o.x = $V
+        o.s = {$V: 1}
+        return o.s
+    def set_later(self, q):
+        self.x = q
+        self.x = $V
+        self.x += 1
+        setattr(self, 'dyn', $V)
+        self.__dict__['k'] = $V
+        with Ctx() as self.cm_target: pass
+        for self.loop in ($V, 1): pass
+        (self.tup, *self.rest) = ($V, $V, 1)
+        if (w1 := $V): self.wal = w1
+    def read(self):
+        return self.x, self.z[0], self.t[0], self.d['k'], self.nope, self.c, self.cattr, self.x.attr, self.x(), self.x[0], AK$J.nope2
+    def __eq__(self, other): return self.x == $V
+    def __hash__(self): return hash($V)
+    def __bool__(self): return bool($V)
+class AKS$J(AK$J):
+    __slots__ = ('sl',)
+    def __init__(self):
+        super().__init__()
+        self.sl = $V
+        self.x = None
+    def read2(self): return self.sl, self.x, self.nope3, super().nope4
+def akd$J():
+    @dataclass
+    class AKD:
+        f: object = $V
+        g: tuple = ($V,)
+        def m(self): self.f = $V; return self.f, self.g, self.h
+    class AKE(enum.Enum):
+        A = $V
+    class AKN(NamedTuple):
+        f: object = $V
+    return AKD($V).f, AKD(f=$V).m(), dataclasses.replace(AKD(), f=$V), AKE.A.value, AKE($V), AKN().f, AKN($V)[0]
+def ako$J(o: Base, l: "Later", c: Ctx, u: Union[Base, Ctx], t: type[Base], a: Any, n: None, ak: AK$J):
+    o.attr = $V; o.new = $V; l.inner = $V; l.v = $V; c.state = $V; u.both = $V; t.attr = $V; a.any = $V; n.none = $V
+    ak.x = $V; ak.other = [$V]
+    Base().attr = $V
+    Base.attr = $V
+    Later().v = $V
+    later_fn().v = $V
+    g2.attr = $V
+    os.attr = $V
+    $V.attr = $V
+    o.attr, l.v = $V, $V
+    o.attr = l.v = $V
+    o.attr: int = $V
+    del o.attr
+    return o.attr, o.new, l.inner, l.v, c.state, o.nope5, l.nope6, ak.x, ak.nope7
+def akp$J(p=$V, q=[$V], *a, k=$V, **kw):
+    return p, q, k
+def akc$J():
+    @$V
+    def g1(): pass
+    @$V
+    class K1: pass
+    class K2($V): pass
+    class K3(metaclass=$V): pass
+    class K4(Base, k=$V): pass
+    return g1, K1, K2, K3, K4
+def aka$J(x: $V, *a: $V, **k: $V) -> $V:
+    v: $V = x
+    w: list[$V] = []
+    z: Optional[$V] = None
+    t: "$V" = x
+    u: Literal[$V] = x
+    an: Annotated[int, $V] = 1
+    c: Callable[[$V], $V] = print
+    y = typing.cast($V, x), typing.cast(list[$V], x), typing.assert_type(x, $V), isinstance(x, ($V, int)), issubclass(int, ($V,))
+    return x
+def akn$J():
+    y = [$V, $V], ($V, $V), {$V: $V}, {$V, 1}, [$V] * 2, [$V] + [1], ($V,) == ($V,), $V in [$V], $V in {1: $V}, [*($V,)], {**{'k': $V}}
+    y = $V if $V else $V; y = $V and $V; y = $V or 1; y = not $V; y = $V is $V; y = $V == $V; y = $V != 1; y = 1 < $V < 2
+    y = [i for i in [$V] if i]; y = {i: i for i in ($V,)}; y = any(i for i in [$V])
+    y = f"{$V} {$V!r} {$V!s:>10} {$V=} {1:{$V}}"
+    y = str($V), repr($V), hash($V), bool($V), len($V), int($V), float($V), list($V), dict($V), iter($V), id($V), type($V), dir($V), vars($V), callable($V)
+    y = print($V, sep=$V, end=$V, file=$V); y = sorted([$V, $V]); y = max($V, $V); y = sum([$V]); y = range($V); y = [1, 2][$V]; y = (1, 2)[$V:$V]
+    y = getattr($V, 'attr'); y = getattr(g1, $V); y = getattr($V, 'attr', $V); y = hasattr($V, 'meth'); y = isinstance($V, Base); y = isinstance(g1, $V)
+    y = functools.partial($V); y = functools.partial(later_fn, $V)(); y = later_fn(x=$V); y = later_fn(y=$V); y = Later(v=$V); y = Base().meth($V)
+    y = $V.meth; y = $V.meth(); y = $V.__class__; y = $V.__dict__; y = $V.__doc__; y = $V.__name__; y = $V.__call__; y = $V.nope
+    y = -$V, +$V, ~$V, $V + $V, $V * 2, 2 * $V, $V % (1,), '%s %r' % ($V, $V), '{} {x}'.format($V, x=$V), $V @ $V, $V ** 2, $V | $V
+    a0, b0 = $V; a0, *b0 = $V; [a0, [b0, c0]] = $V
+    for a0, b0 in $V: pass
+    with $V as cm0, $V: pass
+    del $V.attr, $V[0]
+    $V.attr += 1; $V[0] += 1; $V[$V] = $V
+    assert $V, $V
+    try: raise $V
+    except $V: pass
+    try: raise ValueError from $V
+    except ($V, ValueError) as e0: pass
+    match $V:
+        case int() | str(): pass
+        case [a1, *b1]: pass
+        case {'k': v1, **r1}: pass
+        case Base(attr=1): pass
+        case AK$J(x=1): pass
+        case _: pass
+    match g1:
+        case AK$J.cattr: pass
+    global g_aw
+    g_aw = $V
+    return $V
+async def aky$J():
+    y = await $V
+    async for i in $V: pass
+    async with $V as c0: pass
+    y = [i async for i in $V]
+    y = await asyncio.gather($V, $V)
+    yield $V
+def akg$J():
+    y = yield $V
+    yield from $V
+    return $V
+'''
+
+
+def awkward_positions(v: str, j: int) -> str:
+    return AWKWARD_POSITIONS.replace("$V", v).replace("$J", str(j))
+
+
+def awkward_module(values, uses: bool = True, extra_header: str = "") -> str:
+    """HEADER + AWKWARD_HEADER + for every value: AWKWARD_POSITIONS and (uses=True) every USES template with the value for x"""
+    import re
+
+    defs = []
+    for j, v in enumerate(values):
+        defs.append(awkward_positions(v, j))
+        for k, u in enumerate(USES if uses else []):
+            defs.append(f"def aw{j}_{k}(p=0):\n" + _indent(re.sub(r"\bx\b", v, u), "    "))
+    return HEADER + AWKWARD_HEADER + extra_header + "\n".join(d for d in defs if _compiles(d)) + "\n" + TAIL
+
+
+AWKWARD_PER_CLI_FILE = 25
+
+
+def awkward_cli_programs() -> list:
+    """-> [(name, source)] : the value positions (no USES) for every awkward value, for whole-file runs"""
+    return [(f"{AWKWARD[i]}..{AWKWARD[min(i + AWKWARD_PER_CLI_FILE, len(AWKWARD)) - 1]}", awkward_module(AWKWARD[i: i + AWKWARD_PER_CLI_FILE], uses=False))
+            for i in range(0, len(AWKWARD), AWKWARD_PER_CLI_FILE)]
